@@ -252,6 +252,13 @@ func CheckC07(c *Ctx) {
 			}
 		}
 	}
+	// every decorator hands back its one decided pipeline on every path: no shortcut returns
+	// something else (the inner strategy's own stream, a nested decorator's stream, …)
+	for _, d := range []struct{ typ, callee string }{{"InverseStrategy", "helper.Map"}, {"NoLossStrategy", "helper.Operate"}, {"StopLossStrategy", "helper.Operate"}} {
+		if fi := c.fn("strategy/decorator", d.typ, "Compute"); fi != nil {
+			c.everyReturnIsThePipeline(fi, d.callee, "strategy/decorator.(*"+d.typ+").Compute")
+		}
+	}
 	// MACD-RSI combiner
 	if fi := c.fn("strategy/compound", "MacdRsiStrategy", "Compute"); fi != nil {
 		info := fi.Pkg.TypesInfo
@@ -1366,4 +1373,93 @@ func intEval(e ast.Expr, env map[string]int64, k int64) (int64, bool) {
 		}
 	}
 	return 0, false
+}
+
+// everyReturnIsThePipeline: each return of a decorator's Compute yields (possibly through locals)
+// the call calleeSuffix(…) whose closure argument is the decided one and whose stream argument
+// comes from the wrapped strategy's Compute.
+func (c *Ctx) everyReturnIsThePipeline(fi *load.FuncInfo, calleeSuffix, site string) {
+	run := c.Run
+	info := fi.Pkg.TypesInfo
+	lit := closureArg(info, fi.Decl, calleeSuffix)
+	defs := singleDefs(info, fi.Decl.Body)
+	n := 0
+	ast.Inspect(fi.Decl.Body, func(nd ast.Node) bool {
+		if _, isLit := nd.(*ast.FuncLit); isLit {
+			return false
+		}
+		r, ok := nd.(*ast.ReturnStmt)
+		if !ok || len(r.Results) != 1 {
+			return true
+		}
+		n++
+		e := ast.Unparen(r.Results[0])
+		for i := 0; i < 6; i++ {
+			id, isID := e.(*ast.Ident)
+			if !isID {
+				break
+			}
+			d, has := defs[info.ObjectOf(id)]
+			if !has {
+				break
+			}
+			e = ast.Unparen(d)
+		}
+		good := false
+		if call, ok := e.(*ast.CallExpr); ok && strings.HasSuffix(calleeName(info, call), calleeSuffix) {
+			hasLit, fromInner := false, false
+			for _, a := range call.Args {
+				if fl := funcLitOf(info, fi.Decl, a); fl != nil && fl == lit {
+					hasLit = true
+				}
+				if derivesFromDeep(info, fi.Decl, a, ".Compute") {
+					fromInner = true
+				}
+			}
+			good = hasLit && fromInner
+		}
+		run.Oblige(good)
+		if !good {
+			c.violate("decision-table", site, "return "+short(exprString(r.Results[0]), 60), r.Pos(), "this path does not return the decorator's pipeline ("+calleeSuffix+" over the wrapped strategy's actions with the decided closure) but "+short(exprString(e), 80)+": the documented function of the wrapped action stream is not applied on it")
+		}
+		return true
+	})
+	run.Count("decorator_returns", n)
+}
+
+// derivesFromDeep: like derivesFrom, but also through the stream arguments of helper stages
+// (Duplicate element, Map/Skip/Shift of a stream, asset.SnapshotsAs…).
+func derivesFromDeep(info *types.Info, fd *ast.FuncDecl, e ast.Expr, suffix string) bool {
+	defs := singleDefs(info, fd.Body)
+	var walk func(e ast.Expr, depth int) bool
+	walk = func(e ast.Expr, depth int) bool {
+		if depth > 10 {
+			return false
+		}
+		switch x := e.(type) {
+		case *ast.ParenExpr:
+			return walk(x.X, depth+1)
+		case *ast.IndexExpr:
+			return walk(x.X, depth+1)
+		case *ast.Ident:
+			if d, ok := defs[info.Uses[x]]; ok {
+				return walk(d, depth+1)
+			}
+		case *ast.CallExpr:
+			if strings.HasSuffix(calleeName(info, x), suffix) {
+				return true
+			}
+			for _, a := range x.Args {
+				if t := info.TypeOf(a); t != nil {
+					if _, isChan := t.Underlying().(*types.Chan); isChan || strings.HasPrefix(t.String(), "[]<-chan") || strings.HasPrefix(t.String(), "[]chan") {
+						if walk(a, depth+1) {
+							return true
+						}
+					}
+				}
+			}
+		}
+		return false
+	}
+	return walk(e, 0)
 }
